@@ -4,10 +4,10 @@
 SPECIFICATION Spec
 CONSTANTS
   Variant = "asfound"
-  Configs <- CfgGenA
+  Configs <- CfgGap
   ApiOutcomes = {"s500", "R0", "RB", "RE"}
   DnsOutcomes = {"nosuccess", "nobidi", "R2", "RB"}
 VIEW view
 INVARIANTS I_NoWireAfterCancel I_NoFallbackAfterCancel I_NoInflightAfterCancel I_RegReflectsAccepted
-           I_ErrorIndicationRespected I_AcceptedHasAddr I_FailureIsRegFailed
+           I_ErrorIndicationRespected I_AcceptedHasAddr I_FailureIsRegFailed I_DelayOnceAfterSuccess
 CHECK_DEADLOCK FALSE
